@@ -96,6 +96,16 @@ def case_fn(case):
     kw = dict(model_key=mk, params_initial=P, segment=seg,
               weight_cp=case["weight_cp"], method=case["method"],
               range_x=[0, 0], range_type="absolute", gcf_k=1.0)
+    rng_kind = case.get("range", "whole")
+    if rng_kind == "abs":
+        # a proper sub-interval: most of the indentation, part of the
+        # baseline; recovery and the fitted curve are still judged on the
+        # whole fitted segment
+        kw.update(range_x=[case["cp"] - 0.8 * DEPTH,
+                           case["cp"] + 0.5 * XSTART])
+    elif rng_kind == "rel":
+        kw.update(range_x=[-0.8 * DEPTH, 0.5 * XSTART],
+                  range_type="relative cp")
     if case.get("kw_order") == "params-first":
         kw = {k: kw[k] for k in ["params_initial", "segment", "method",
                                  "model_key", "weight_cp", "range_x",
@@ -202,7 +212,19 @@ def cases(tier):
                                                                  "params-first",
                                                                  "reversed"][
                                                         (len(cs)) % 3]})
-    return cs
+    # fits on a proper sub-interval (absolute / relative to the contact
+    # point): exact data, so the truth is still recovered, and the fitted
+    # curve coincides with the data on the whole fitted segment
+    sub = []
+    for c in cs:
+        if c["noise"] == 0.0 and c["method"] == "leastsq" \
+                and c["corner"] in ([0, 0, 0], [1, 1, 1]) \
+                and (tier != "quick" or c["baseline"] == 2e-10):
+            for rk in ("abs", "rel"):
+                d = dict(c)
+                d["range"] = rk
+                sub.append(d)
+    return cs + sub
 
 
 def replay(doc):
